@@ -200,11 +200,11 @@ Proof.
 Qed.
 
 (* a job body writes a new file *)
-Lemma create_ok : forall fs m d h p p',
-  (forall u, p' u = p u + occ u fs) -> (forall u, 0 < occ u fs -> h u = 0) ->
-  consistent m d h p -> consistent m (map f_uid fs ++ d) h p'.
+Lemma create_ok : forall fs m d h p h' p',
+  (forall u, h' u = h u) -> (forall u, p' u = p u + occ u fs) -> (forall u, 0 < occ u fs -> h u = 0) ->
+  consistent m d h p -> consistent m (map f_uid fs ++ d) h' p'.
 Proof.
-  intros fs m d h p p' Ep Hf (A & B & C). split; [|split]; intros u; [|split|]; intros.
+  intros fs m d h p h' p' Eh Ep Hf CC. apply (consistent_ext _ _ h p'); auto. destruct CC as (A & B & C). split; [|split]; intros u; [|split|]; intros.
   - apply A.
   - rewrite Ep. apply in_app_or in H. destruct H.
     + apply occ_pos_in in H. right. lia.
@@ -256,6 +256,20 @@ Lemma occ_firstn_le : forall u n fs, occ u (firstn n fs) <= occ u fs.
 Proof. intros. rewrite (occ_firstn_skipn u n fs). lia. Qed.
 
 Ltac hsimpl := repeat progress (unfold holders, pending_files, ij_files, mj_files, tj_files, copy_from in *; simpl in *).
+
+Lemma skipn_add : forall (A : Type) off n (l : list A), skipn n (skipn off l) = skipn (off + n) l.
+Proof.
+  induction off; simpl; intros; [reflexivity|].
+  destruct l; [destruct n; reflexivity|apply IHoff].
+Qed.
+
+Lemma occ_split3 : forall u off n fs,
+  occ u fs = occ u (firstn off fs) + occ u (firstn n (skipn off fs)) + occ u (skipn (off + n) fs).
+Proof.
+  intros. rewrite (occ_firstn_skipn u off fs) at 1.
+  rewrite (occ_firstn_skipn u n (skipn off fs)) at 1.
+  rewrite skipn_add. lia.
+Qed.
 
 Section Step13.
 Variable capdb : N -> capture.
@@ -321,6 +335,7 @@ Lemma invx_same : forall x st st',
 Proof.
   intros x st st' E1 E2 E3 E4 E5 E6 E7 E8 Q [C F P1 _ IS MS].
   constructor; unfold holders, pending_files in *; rewrite ?E1, ?E2, ?E3, ?E4, ?E5, ?E6, ?E7, ?E8; auto.
+  intros H. apply Q. rewrite E5. exact H.
 Qed.
 
 Lemma length_app_eq_nil : forall (A : Type) (q ks : list A), length (q ++ ks) = length ks -> q = [].
@@ -388,4 +403,370 @@ Proof.
   apply (invx_same [] st); auto. simpl. apply (i_queue _ _ I).
 Qed.
 
+
+Lemma release_extra_ok : forall x st,
+  invx x st -> inv13 (set_used_disk st (release x (used st, disk st))).
+Proof.
+  intros x st [C F P1 Q IS MS].
+  constructor; simpl; auto.
+  - refine (release_ok x _ _ _ _ _ _ C). intros u. hsimpl. lia.
+  - intros u H. apply F. hsimpl. destruct H; [left|right; auto]. lia.
+Qed.
+
+Lemma occ_single : forall u v es, occ u [mkFile v es] = if v =? u then 1 else 0.
+Proof. intros. simpl. lia. Qed.
+
+Lemma step_start_import_ok : forall st, inv13 st -> inv13 (step capdb rf merge st (AStart KImport)).
+Proof.
+  intros st I. simpl.
+  destruct (ijob st) as [[caps nx snap [|] cr un]|] eqn:Hj; try exact I.
+  destruct (from_pcap capdb (known st) caps snap) as [[es usednew] allk].
+  pose proof (i_ijstart _ _ I _ Hj eq_refl) as Hcr. simpl in Hcr. subst cr.
+  destruct I as [C F P1 Q IS MS].
+  set (created := match es with [] => [] | _ => [mkFile (next_uid st) es] end).
+  assert (Hc : forall u, 0 < occ u created -> u = next_uid st).
+  { intros u. subst created. destruct es; simpl; [lia|]. destruct (N.eqb_spec (next_uid st) u); [auto|lia]. }
+  assert (Hnu : next_uid st <= match es with [] => next_uid st | _ => next_uid st + 1 end /\
+                (forall u, 0 < occ u created -> u < match es with [] => next_uid st | _ => next_uid st + 1 end)).
+  { subst created. destruct es; simpl; split; try lia; intros u. destruct (N.eqb_spec (next_uid st) u); lia. }
+  destruct Hnu as [Hn1 Hn2].
+  constructor; simpl; auto.
+  - refine (create_ok created _ _ _ _ _ _ _ _ _ C).
+    + intros u. hsimpl. rewrite Hj. reflexivity.
+    + intros u. hsimpl. rewrite Hj. simpl. rewrite occ_app. lia.
+    + intros u H. apply Hc in H. subst u.
+      destruct (N.eq_dec (holders st (next_uid st) + occ (next_uid st) []) 0) as [E|E]; [exact E|].
+      assert (next_uid st < next_uid st) by (apply F; left; lia). lia.
+  - intros u H. hsimpl. rewrite Hj in *. simpl in *. rewrite occ_app in H.
+    destruct (N.eq_dec (occ u created) 0) as [E|E].
+    + assert (u < next_uid st) by (apply F; lia). lia.
+    + apply Hn2. lia.
+  - intros u. hsimpl. rewrite Hj in *. simpl in *. rewrite occ_app.
+    destruct (N.eq_dec (occ u created) 0) as [E|E]; [specialize (P1 u); lia|].
+    assert (u = next_uid st) by (apply Hc; lia). subst u.
+    destruct (N.eq_dec (occ (next_uid st) match mjob st with Some j => mj_merged j | None => [] end) 0) as [E2|E2].
+    * rewrite E2. subst created. destruct es; simpl; rewrite ?N.eqb_refl; lia.
+    * assert (next_uid st < next_uid st) by (apply F; right; lia). lia.
+  - intros _. apply Q. rewrite Hj. discriminate.
+  - intros j E. inversion E; subst. simpl. discriminate.
+Qed.
+
+Lemma step_start_merge_ok : forall st, inv13 st -> inv13 (step capdb rf merge st (AStart KMerge)).
+Proof.
+  intros st I. simpl.
+  destruct (mjob st) as [[off snap [|] mg]|] eqn:Hj; try exact I.
+  pose proof (i_mjstart _ _ I _ Hj eq_refl) as Hcr. simpl in Hcr. subst mg.
+  destruct I as [C F P1 Q IS MS].
+  set (ic := match ijob st with Some j => ij_created j | None => [] end).
+  assert (Ep : forall u, occ u (pending_files st) = occ u ic).
+  { intros u. unfold pending_files. rewrite Hj. simpl. rewrite app_nil_r. reflexivity. }
+  set (created := match snap with [] => [] | _ => [mkFile (next_uid st) (merge snap)] end).
+  assert (Hc : forall u, 0 < occ u created -> u = next_uid st).
+  { intros u. subst created. destruct snap; simpl; [lia|]. destruct (N.eqb_spec (next_uid st) u); [auto|lia]. }
+  assert (Hnu : next_uid st <= match snap with [] => next_uid st | _ => next_uid st + 1 end /\
+                (forall u, 0 < occ u created -> u < match snap with [] => next_uid st | _ => next_uid st + 1 end)).
+  { subst created. destruct snap; simpl; split; try lia; intros u. destruct (N.eqb_spec (next_uid st) u); lia. }
+  destruct Hnu as [Hn1 Hn2].
+  assert (Eh : forall u, holders (mkState (indexes st) (used st) (map f_uid created ++ disk st) (queue st) (known st) (processed st)
+                  (next_cap st) (next_id st) (match snap with [] => next_uid st | _ => next_uid st + 1 end) (nunm st) (ntags st)
+                  (unc st) (dirty st) (ijob st) (Some (mkMJ off snap AtDone created)) (tjob st) (views st)) u = holders st u).
+  { intros u. hsimpl. rewrite Hj. reflexivity. }
+  constructor; simpl; auto; fold created.
+  - refine (create_ok created _ _ _ _ _ _ _ _ _ C).
+    + intros u. rewrite Eh. reflexivity.
+    + intros u. rewrite Ep. unfold pending_files. simpl. fold ic. rewrite occ_app. reflexivity.
+    + intros u H. apply Hc in H. subst u.
+      destruct (N.eq_dec (holders st (next_uid st) + occ (next_uid st) []) 0) as [E|E]; [exact E|].
+      assert (next_uid st < next_uid st) by (apply F; left; lia). lia.
+  - intros u H. rewrite Eh in H. unfold pending_files in H. simpl in H. fold ic in H. rewrite occ_app in H.
+    destruct (N.eq_dec (occ u created) 0) as [E|E].
+    + assert (u < next_uid st) by (apply F; rewrite Ep; lia). lia.
+    + apply Hn2. lia.
+  - intros u. unfold pending_files. simpl. fold ic. rewrite occ_app.
+    destruct (N.eq_dec (occ u created) 0) as [E|E]; [specialize (P1 u); rewrite Ep in P1; lia|].
+    assert (u = next_uid st) by (apply Hc; lia). subst u.
+    destruct (N.eq_dec (occ (next_uid st) ic) 0) as [E2|E2].
+    * rewrite E2. subst created. destruct snap; simpl; rewrite ?N.eqb_refl; lia.
+    * assert (next_uid st < next_uid st) by (apply F; right; rewrite Ep; lia). lia.
+  - intros j E. inversion E; subst. simpl. discriminate.
+Qed.
+
+Lemma step_start_tag_ok : forall st, inv13 st -> inv13 (step capdb rf merge st (AStart KTag)).
+Proof.
+  intros st I. simpl.
+  destruct (tjob st) as [[snap [|]]|] eqn:Hj; try exact I.
+  destruct I as [C F P1 Q IS MS].
+  constructor; simpl; auto.
+  - refine (consistent_ext _ _ _ _ _ _ _ _ C); intros u; hsimpl; rewrite ?Hj; reflexivity.
+  - intros u H. apply F. hsimpl. rewrite Hj in *. exact H.
+Qed.
+
+
+Lemma step_complete_tag_ok : forall st, inv13 st -> inv13 (step capdb rf merge st (AComplete KTag)).
+Proof.
+  intros st I. simpl.
+  destruct (tjob st) as [[snap [|]]|] eqn:Hj; try exact I.
+  apply release_extra_ok. apply start_merge_ok. apply start_tagging_ok.
+  destruct I as [C F P1 Q IS MS].
+  constructor; simpl; auto.
+  - refine (consistent_ext _ _ _ _ _ _ _ _ C); intros u; hsimpl; rewrite ?Hj; simpl; lia.
+  - intros u H. apply F. hsimpl. rewrite Hj in *. simpl in *. destruct H; [left|right; auto]. lia.
+Qed.
+
+Lemma step_complete_merge_ok : forall st, inv13 st -> inv13 (step capdb rf merge st (AComplete KMerge)).
+Proof.
+  intros st I. simpl.
+  destruct (mjob st) as [[off snap [|] mg]|] eqn:Hj; try exact I.
+  apply release_extra_ok. apply start_merge_ok.
+  destruct I as [C F P1 Q IS MS].
+  set (ic := match ijob st with Some j => ij_created j | None => [] end).
+  assert (Ep : forall u, occ u (pending_files st) = occ u ic + occ u mg).
+  { intros u. unfold pending_files. rewrite Hj. simpl. fold ic. apply occ_app. }
+  destruct mg as [|m0 mg'].
+  - (* merge failed *)
+    constructor; simpl; auto.
+    + refine (consistent_ext _ _ _ _ _ _ _ _ C); intros u; hsimpl; rewrite ?Hj; simpl; lia.
+    + intros u H. apply F. hsimpl. rewrite Hj in *. simpl in *. destruct H; [left|right; auto]. lia.
+    + intros u. specialize (P1 u). hsimpl. rewrite Hj in P1. exact P1.
+    + intros j E. discriminate.
+  - set (mg := m0 :: mg') in *.
+    set (old := firstn (length snap) (skipn off (indexes st))).
+    pose proof (fun u => occ_split3 u off (length snap) (indexes st)) as S3. fold old in S3.
+    constructor; simpl; auto.
+    + (* release the replaced run, then lock the merged files *)
+      set (hA := fun u => occ u (firstn off (indexes st)) + occ u (skipn (off + length snap) (indexes st))
+                          + occ_views u (views st) + occ u (ij_files (ijob st)) + occ u (tj_files (tjob st)) + occ u snap).
+      assert (CA : consistent (fst (release old (used st, disk st))) (snd (release old (used st, disk st))) hA
+                              (fun u => occ u (pending_files st))).
+      { refine (release_ok old _ _ _ _ _ _ C). intros u. subst hA. hsimpl. rewrite Hj. simpl. specialize (S3 u). lia. }
+      refine (lock_pending_ok mg _ _ _ _ _ _ _ _ _ CA).
+      * intros u. subst hA. hsimpl. rewrite !occ_app. simpl. rewrite ?occ_app. lia.
+      * intros u. rewrite Ep. unfold pending_files. simpl. fold ic. rewrite app_nil_r. reflexivity.
+      * intros u H. unfold pending_files. simpl. fold ic. rewrite app_nil_r.
+        specialize (P1 u). rewrite Ep in P1. lia.
+    + intros u H. apply F. rewrite Ep. subst mg. hsimpl. rewrite Hj in *. simpl in *. fold ic in H.
+      rewrite app_nil_r in H. rewrite !occ_app in H. simpl in H. rewrite ?occ_app in H. specialize (S3 u). fold old in S3.
+      lia.
+    + intros u. specialize (P1 u). rewrite Ep in P1. unfold pending_files. simpl. fold ic. rewrite app_nil_r. lia.
+    + intros j E. discriminate.
+Qed.
+
+Lemma step_complete_import_ok : forall st, inv13 st -> inv13 (step capdb rf merge st (AComplete KImport)).
+Proof.
+  intros st I. simpl.
+  destruct (ijob st) as [[caps nx snap [|] cr un]|] eqn:Hj; try exact I.
+  apply start_merge_ok. apply start_tagging_ok.
+  match goal with |- invx [] (match ?qq with [] => ?s1 | _ => _ end) => set (st1 := s1) end.
+  assert (I1 : inv13 st1).
+  { destruct I as [C F P1 Q IS MS].
+    set (mm := match mjob st with Some j => mj_merged j | None => [] end).
+    assert (Ep : forall u, occ u (pending_files st) = occ u cr + occ u mm).
+    { intros u. unfold pending_files. rewrite Hj. simpl. fold mm. apply occ_app. }
+    constructor; simpl; auto.
+    - set (hA := fun u => occ u (indexes st) + occ_views u (views st) + occ u (mj_files (mjob st)) + occ u (tj_files (tjob st))).
+      assert (CA : consistent (fst (release snap (used st, disk st))) (snd (release snap (used st, disk st))) hA
+                              (fun u => occ u (pending_files st))).
+      { refine (release_ok snap _ _ _ _ _ _ C). intros u. subst hA. hsimpl. rewrite Hj. simpl. lia. }
+      refine (lock_pending_ok cr _ _ _ _ _ _ _ _ _ CA).
+      + intros u. subst hA. hsimpl. rewrite !occ_app. lia.
+      + intros u. rewrite Ep. unfold pending_files. simpl. fold mm. lia.
+      + intros u H. unfold pending_files. simpl. fold mm. specialize (P1 u). rewrite Ep in P1. lia.
+    - intros u H. apply F. rewrite Ep. hsimpl. rewrite Hj in *. simpl in *. fold mm in H.
+      rewrite !occ_app in H.
+      destruct (N.eq_dec (occ u cr) 0); [|right; lia].
+      destruct H; [left|right]; lia.
+    - intros u. specialize (P1 u). rewrite Ep in P1. unfold pending_files. simpl. fold mm. lia.
+    - intros j E. discriminate. }
+  assert (Hq1 : queue st1 = skipn (length caps) (queue st)) by reflexivity.
+  assert (Hij : ijob st1 = None) by reflexivity.
+  clearbody st1.
+  destruct (skipn (length caps) (queue st)) eqn:Hq; [exact I1|].
+  apply launch_import_ok; [exact I1|exact Hij|].
+  rewrite Hq1. discriminate.
+Qed.
+
+Theorem step_inv13 : forall st a, inv13 st -> inv13 (step capdb rf merge st a).
+Proof.
+  intros st a I. destruct a as [ks|v|v|v| |k|k].
+  - apply step_import_ok; auto.
+  - apply step_view_ok; auto.
+  - apply step_read_ok; auto.
+  - apply step_release_ok; auto.
+  - apply step_tagadd_ok; auto.
+  - destruct k; [apply step_start_import_ok|apply step_start_merge_ok|apply step_start_tag_ok]; auto.
+  - destruct k; [apply step_complete_import_ok|apply step_complete_merge_ok|apply step_complete_tag_ok]; auto.
+Qed.
+
+Lemma inv13_init : inv13 init.
+Proof.
+  constructor; simpl; try (intros; discriminate); try congruence.
+  - split; [|split]; intros u; simpl.
+    + reflexivity.
+    + split; [tauto|]. unfold holders, pending_files. simpl. lia.
+    + unfold pending_files. simpl. lia.
+  - intros u. unfold holders, pending_files. simpl. lia.
+Qed.
+
+Theorem run_inv13 : forall acts, inv13 (fold_left (step capdb rf merge) acts init).
+Proof.
+  intros acts. assert (G : forall st, inv13 st -> inv13 (fold_left (step capdb rf merge) acts st)).
+  { induction acts; simpl; intros; auto. apply IHacts. apply step_inv13. auto. }
+  apply G. apply inv13_init.
+Qed.
+
 End Step13.
+
+(* ---------------------------------------------------------------- the service list never contains a file twice *)
+Lemma indexes_start_tagging : forall st, indexes (start_tagging st) = indexes st.
+Proof. intros. unfold start_tagging. destruct (tjob st); auto. destruct (unc st =? 0); auto. Qed.
+
+Lemma indexes_start_merge : forall st, indexes (start_merge st) = indexes st.
+Proof.
+  intros. unfold start_merge. destruct (mjob st); auto. destruct (tjob st); auto.
+  destruct (unc st =? 0); auto. destruct (find_merge (nunm st) (indexes st)); auto.
+Qed.
+
+Lemma indexes_launch_import : forall files st, indexes (launch_import files st) = indexes st.
+Proof. reflexivity. Qed.
+
+Lemma indexes_set_used_disk : forall st md, indexes (set_used_disk st md) = indexes st.
+Proof. reflexivity. Qed.
+
+Section Step13b.
+Variable capdb : N -> capture.
+Variable rf : bool.
+Variable merge : list file -> list entry.
+
+Definition uniq (st : state) : Prop := forall u, occ u (indexes st) <= 1.
+
+Lemma pending_not_held : forall st u, inv13 st -> 0 < occ u (pending_files st) -> occ u (indexes st) = 0.
+Proof.
+  intros st u I H. destruct (i_cons _ _ I) as (_ & _ & C). specialize (C u H). unfold holders in C. lia.
+Qed.
+
+Lemma step_uniq : forall st a, inv13 st -> uniq st -> uniq (step capdb rf merge st a).
+Proof.
+  intros st a I U. destruct a as [ks|v|v|v| |k|k]; simpl.
+  - destruct ks; auto. destruct (ascending _ _); auto.
+    destruct (_ =? _)%nat; auto.
+  - destruct (view_of v (views st)); auto.
+  - destruct (view_of v (views st)) as [[|]|]; auto. destruct rf; auto.
+  - destruct (view_of v (views st)); auto.
+  - intros u. rewrite indexes_start_tagging. apply U.
+  - destruct k.
+    + destruct (ijob st) as [[caps nx snap [|] cr un]|]; auto.
+      destruct (from_pcap capdb (known st) caps snap) as [[es usednew] allk]. auto.
+    + destruct (mjob st) as [[off snap [|] mg]|]; auto.
+    + destruct (tjob st) as [[snap [|]]|]; auto.
+  - destruct k.
+    + destruct (ijob st) as [[caps nx snap [|] cr un]|] eqn:Hj; auto.
+      intros u. rewrite indexes_start_merge, indexes_start_tagging.
+      assert (E : forall s1 : state, indexes match skipn (length caps) (queue st) with [] => s1 | _ :: _ => launch_import (skipn (length caps) (queue st)) s1 end = indexes s1).
+      { intros. destruct (skipn (length caps) (queue st)); reflexivity. }
+      rewrite E. simpl. rewrite occ_app.
+      destruct (N.eq_dec (occ u cr) 0) as [Z|Z]; [specialize (U u); lia|].
+      assert (P : 0 < occ u (pending_files st)).
+      { unfold pending_files. rewrite Hj. simpl. rewrite occ_app. lia. }
+      rewrite (pending_not_held st u I P).
+      pose proof (i_pend1 _ _ I u) as P1. unfold pending_files in P1. rewrite Hj in P1. simpl in P1. rewrite occ_app in P1. lia.
+    + destruct (mjob st) as [[off snap [|] mg]|] eqn:Hj; auto.
+      intros u. rewrite indexes_set_used_disk, indexes_start_merge.
+      destruct mg as [|m0 mg']; [apply U|].
+      remember (m0 :: mg') as mg eqn:Emg.
+      match goal with |- occ u (indexes ?s) <= 1 => replace (indexes s) with (firstn off (indexes st) ++ mg ++ skipn (off + length snap) (indexes st)) by (subst mg; reflexivity) end.
+      rewrite !occ_app.
+      pose proof (occ_split3 u off (length snap) (indexes st)) as S3.
+      destruct (N.eq_dec (occ u mg) 0) as [Z|Z]; [specialize (U u); lia|].
+      assert (P : 0 < occ u (pending_files st)).
+      { unfold pending_files. rewrite Hj. simpl. rewrite occ_app. lia. }
+      pose proof (pending_not_held st u I P) as Z0.
+      pose proof (i_pend1 _ _ I u) as P1. unfold pending_files in P1. rewrite Hj in P1. simpl in P1. rewrite occ_app in P1. lia.
+    + destruct (tjob st) as [[snap [|]]|]; auto.
+      intros u. rewrite indexes_set_used_disk, indexes_start_merge, indexes_start_tagging. apply U.
+Qed.
+
+Theorem run_uniq : forall acts, uniq (fold_left (step capdb rf merge) acts init).
+Proof.
+  intros acts.
+  assert (G : forall st, inv13 st -> uniq st -> uniq (fold_left (step capdb rf merge) acts st)).
+  { induction acts; simpl; intros; auto. apply IHacts; [apply step_inv13|apply step_uniq]; auto. }
+  apply G; [apply inv13_init; assumption|]. intros u. unfold init. simpl. lia.
+Qed.
+
+End Step13b.
+
+(* ---------------------------------------------------------------- statements of C13 *)
+Definition held_by_view (st : state) (f : file) : Prop := exists v s, In (v, s) (views st) /\ In f s.
+Definition held_by_job (st : state) (f : file) : Prop :=
+  In f (ij_files (ijob st)) \/ In f (mj_files (mjob st)) \/ In f (tj_files (tjob st)).
+Definition being_written (st : state) (u : N) : Prop := In u (map f_uid (pending_files st)).
+Definition quiescent (st : state) : Prop :=
+  ijob st = None /\ mjob st = None /\ tjob st = None /\ views st = [].
+
+Lemma in_occ_pos : forall f fs, In f fs -> 0 < occ (f_uid f) fs.
+Proof. intros. apply occ_pos_in. apply in_map. auto. Qed.
+
+Lemma in_occ_views_pos : forall f v s vs, In (v, s) vs -> In f s -> 0 < occ_views (f_uid f) vs.
+Proof.
+  induction vs as [|[w s0] r]; simpl; intros H Hf; [tauto|].
+  destruct H as [H|H].
+  - inversion H; subst. pose proof (in_occ_pos _ _ Hf). lia.
+  - specialize (IHr H Hf). lia.
+Qed.
+
+Lemma inv13_count : forall st u, inv13 st -> cnt (used st) u = holders st u.
+Proof. intros st u I. destruct (i_cons _ _ I) as (A & _ & _). rewrite A. simpl. lia. Qed.
+
+Lemma inv13_holder_on_disk : forall st f, inv13 st ->
+  In f (indexes st) \/ held_by_view st f \/ held_by_job st f -> In (f_uid f) (disk st).
+Proof.
+  intros st f I H. destruct (i_cons _ _ I) as (_ & B & _). apply B. left. simpl.
+  unfold holders. destruct H as [H|[(v & s & H1 & H2)|[H|[H|H]]]].
+  - pose proof (in_occ_pos _ _ H). lia.
+  - pose proof (in_occ_views_pos _ _ _ _ H1 H2). lia.
+  - pose proof (in_occ_pos _ _ H). lia.
+  - pose proof (in_occ_pos _ _ H). lia.
+  - pose proof (in_occ_pos _ _ H). lia.
+Qed.
+
+Lemma inv13_disk_iff : forall st u, inv13 st ->
+  (In u (disk st) <-> 0 < cnt (used st) u \/ being_written st u).
+Proof.
+  intros st u I. rewrite (inv13_count st u I). destruct (i_cons _ _ I) as (_ & B & _).
+  rewrite B. simpl. unfold being_written. rewrite <- occ_pos_in. split; intros [H|H]; auto; left; lia.
+Qed.
+
+Lemma inv13_written_unused : forall st u, inv13 st -> being_written st u -> cnt (used st) u = 0.
+Proof.
+  intros st u I H. rewrite (inv13_count st u I). destruct (i_cons _ _ I) as (_ & _ & C).
+  unfold being_written in H. rewrite <- occ_pos_in in H. specialize (C u H). simpl in C. lia.
+Qed.
+
+Lemma inv13_quiescent : forall st u, inv13 st -> uniq st -> quiescent st ->
+  (In u (disk st) <-> In u (map f_uid (indexes st))) /\
+  cnt (used st) u = (if existsb (N.eqb u) (map f_uid (indexes st)) then 1 else 0).
+Proof.
+  intros st u I U (Q1 & Q2 & Q3 & Q4).
+  assert (H : holders st u = occ u (indexes st)).
+  { unfold holders. rewrite Q1, Q2, Q3, Q4. simpl. lia. }
+  assert (P : occ u (pending_files st) = 0).
+  { unfold pending_files. rewrite Q1, Q2. reflexivity. }
+  split.
+  - destruct (i_cons _ _ I) as (_ & B & _). rewrite B. simpl. rewrite H, P, <- occ_pos_in. lia.
+  - rewrite (inv13_count st u I), H. specialize (U u).
+    destruct (existsb (N.eqb u) (map f_uid (indexes st))) eqn:E.
+    + apply existsb_exists in E. destruct E as (w & Hw & Ew). apply N.eqb_eq in Ew. subst w.
+      apply occ_pos_in in Hw. lia.
+    + destruct (N.eq_dec (occ u (indexes st)) 0) as [Z|Z]; [exact Z|].
+      assert (Hin : In u (map f_uid (indexes st))) by (apply occ_pos_in; lia).
+      assert (existsb (N.eqb u) (map f_uid (indexes st)) = true).
+      { apply existsb_exists. exists u. split; [exact Hin|apply N.eqb_refl]. }
+      congruence.
+Qed.
+
+Lemma uniq_nodup : forall fs, (forall u, occ u fs <= 1) -> NoDup (map f_uid fs).
+Proof.
+  induction fs; simpl; intros H; constructor.
+  - intros Hin. apply occ_pos_in in Hin. specialize (H (f_uid a)). rewrite N.eqb_refl in H. lia.
+  - apply IHfs. intros u. specialize (H u). destruct (f_uid a =? u); lia.
+Qed.
